@@ -88,6 +88,7 @@ type Opts struct {
 	Pure           func(callee *ssa.Function) bool // model call as pure application (no event havoc)
 	MaxPaths       int
 	MaxDepth       int
+	PairIter       bool            // the iteration after a generalised one is precise (pairs of consecutive iterations)
 	Unroll         int             // 0: loop heads general from first visit; 1: first iteration precise
 	Start          ssa.Instruction // begin right after this instruction (region mode)
 	StartBlock     *ssa.BasicBlock // begin at this block (region mode)
@@ -389,6 +390,18 @@ func (x *Explorer) setFact(t *Term, v bool) {
 			} else {
 				x.tighten(l, 1, true)
 			}
+		}
+	}
+	if t.Kind == KEq && v && !t.Args[1].IsConst() && isIntegerTerm(t.Args[0]) && isIntegerTerm(t.Args[1]) {
+		a, b := t.Args[0], t.Args[1]
+		for k := 0; k < 2; k++ {
+			if lo, has := x.lower(b); has {
+				x.tighten(a, lo, true)
+			}
+			if hi, has := x.upper(b); has {
+				x.tighten(a, hi, false)
+			}
+			a, b = b, a
 		}
 	}
 	if t.Kind == KEq && !v && isIntegerTerm(t.Args[0]) {
